@@ -1,5 +1,6 @@
 import Pyxv.Model.Json
 import Pyxv.Model.Texts
+import Pyxv.Model.TextsRepeat
 import Pyxv.Model.TextSpec
 /-! Driver operations of the C08 slice (headers, grouped rows, effective texts, spec). -/
 namespace Pyxv.Texts
@@ -84,7 +85,8 @@ def modelOfCase (j : Json) : Except String Json := do
   match dealiasAndGroupHeaders c.survey.cols c.survey.rows surveyAliases surveyColumns [s "type"] dl true with
   | .error e => return Json.mkObj [("outcome", "error"), ("sheet", "survey"), ("err", errToJson e)]
   | .ok gsv =>
-  match buildElems gsv.rows 0 [] with
+  -- `buildElemsR` = `buildElems` + repeat rows (`C08.buildElemsR_conservative`: equal on sheets without repeat rows)
+  match buildElemsR gsv.rows 0 [] with
   | .error w => return Json.mkObj [("outcome", "unsupported"), ("why", jstr w)]
   | .ok elems =>
   let f : Form := ⟨elems, buildChoices gch.rows 0 []⟩
